@@ -491,6 +491,26 @@ pub(crate) fn run_scenario(eth: bool, ip_mtu: usize, steps: &[Step]) -> Scenario
     }
 }
 
+/// `run_scenario` with every call into smoltcp isolated: a panic becomes the localised violation
+/// `C12/panic/<part>/<site>`; the caller continues with the remaining cases.
+pub(crate) fn run_scenario_caught(part: &str, eth: bool, ip_mtu: usize, steps: &[Step]) -> ScenarioResult {
+    match std::panic::catch_unwind(std::panic::AssertUnwindSafe(|| run_scenario(eth, ip_mtu, steps))) {
+        Ok(r) => r,
+        Err(e) => ScenarioResult {
+            viols: vec![Viol::new(
+                format!("C12/panic/{}/{}", part, stable_site(&panic_site())),
+                format!("panic inside the stack while sending/polling: {} at {}", panic_msg(e), last_panic_loc()),
+            )],
+            machinery: vec![],
+            frames: vec![],
+            n_frames: 0,
+            polls: 0,
+            outcomes: steps.iter().map(|_| "panic").collect(),
+            udp_zero_cksum: 0,
+        },
+    }
+}
+
 fn scenario_json(part: &str, eth: bool, ip_mtu: usize, steps: &[Step]) -> Value {
     json!({"part": part, "medium": medium_name(eth), "ip_mtu": ip_mtu, "steps": steps.iter().map(|s| s.to_json()).collect::<Vec<_>>()})
 }
@@ -498,7 +518,7 @@ fn scenario_json(part: &str, eth: bool, ip_mtu: usize, steps: &[Step]) -> Value 
 /// Run many scenarios in parallel, fold deterministically (in domain order).
 fn sweep(rep: &mut Report, part: &str, cases: &[(bool, usize, Vec<Step>)]) -> (BTreeMap<String, u64>, u64, u64, u64) {
     use rayon::prelude::*;
-    let res: Vec<ScenarioResult> = cases.par_iter().map(|(eth, mtu, steps)| run_scenario(*eth, *mtu, steps)).collect();
+    let res: Vec<ScenarioResult> = cases.par_iter().map(|(eth, mtu, steps)| run_scenario_caught(part, *eth, *mtu, steps)).collect();
     let mut outcomes: BTreeMap<String, u64> = BTreeMap::new();
     let (mut frames, mut polls, mut zero) = (0u64, 0u64, 0u64);
     for (c, r) in cases.iter().zip(res.iter()) {
@@ -586,7 +606,7 @@ pub(crate) fn run_s1(rep: &mut Report, tier: Tier) {
     );
     // samples
     for (eth, mtu, n) in [(false, 100usize, 200usize), (true, 576, 1472)] {
-        let r = run_scenario(eth, mtu, &[Step::Udp(n)]);
+        let r = run_scenario_caught("s1", eth, mtu, &[Step::Udp(n)]);
         rep.samples.push(json!({"part": "s1", "medium": medium_name(eth), "ip_mtu": mtu, "udp_payload": n, "frames": r.frames, "verdict": if r.viols.is_empty() { "ok" } else { "violation" }}));
     }
 }
@@ -637,7 +657,7 @@ pub(crate) fn replay(r: &Value) -> i32 {
         return 2;
     };
     println!("scenario: medium={} ip_mtu={} steps={:?}", medium_name(eth), mtu, steps);
-    let res = run_scenario(eth, mtu, &steps);
+    let res = run_scenario_caught(r["part"].as_str().unwrap_or("s1"), eth, mtu, &steps);
     for (i, f) in res.frames.iter().enumerate() {
         println!("  tx[{}] {}", i, f);
     }
